@@ -45,8 +45,8 @@ import (
 	"strings"
 	"unsafe"
 
-	"honnef.co/go/tools/go/ir"
 	"golang.org/x/tools/go/types/typeutil"
+	"honnef.co/go/tools/go/ir"
 )
 
 type value any
@@ -76,7 +76,6 @@ type closure struct {
 }
 
 type bad struct{}
-
 
 // Hash functions and equivalence relation:
 
@@ -179,7 +178,6 @@ func (x iface) eq(t types.Type, _y any) bool {
 func (x iface) hash(outer types.Type) int {
 	return hashType(x.t)*8581 + hash(outer, x.t, x.v)
 }
-
 
 // equals returns true iff x and y are equal according to Go's
 // linguistic equivalence relation for type t.
